@@ -31,7 +31,7 @@ package absnfs
 //@ ensures [snapshot] result != nil && fresh(result) && result.Tuning == curTuning(n) && result.Policy == curPolicy(n)
 
 //@ func NFSProcedureHandler.HandleCall
-//@ prop C09 C14 C16 C08
+//@ prop C09 C16 C08
 //@ requires srvOK(h) && call != nil && authCtx != nil && authCtx.Credential != nil && curTuning(h.server.handler).Timeouts != nil
 // a rejected request reaches no procedure handler (and so no backend call): the dispatch goroutine is
 // spawned only on the path where authentication allowed the request
@@ -39,8 +39,9 @@ package absnfs
 // C10: the handlers see the squashed identity, whatever the credential flavor
 //@ callassert NFSProcedureHandler.HandleCall$1 : [effective-ids-applied] {C10} authCtx.EffectiveUID == authResult.UID && authCtx.EffectiveGID == authResult.GID
 // every reply built by HandleCall itself (policy drain, authentication denied) echoes the call's XID
-//@ ensures [own-replies-echo-xid] handlerCalls == old(handlerCalls) && result0 != nil ==> result0.Header.Xid == call.Header.Xid && result0.Header == call.Header
-//@ ensures [denied-or-drain] handlerCalls == old(handlerCalls) && result0 != nil ==> result0.Status == 1 || (result0.Status == 0 && result0.AcceptStatus == 0)
+//@ ensures [own-replies-echo-xid] {C09, C14} handlerCalls == old(handlerCalls) && result0 != nil ==> result0.Header.Xid == call.Header.Xid && result0.Header == call.Header
+// (the drain answer is SUCCESS with a JUKEBOX result, or SYSTEM_ERR / PROC_UNAVAIL for calls that have no NFS failure result)
+//@ ensures [denied-or-drain] {C09, C14} handlerCalls == old(handlerCalls) && result0 != nil ==> result0.Status == 1 || (result0.Status == 0 && (result0.AcceptStatus == 0 || result0.AcceptStatus == 5 || result0.AcceptStatus == 3))
 //@ ensures [reply-or-error] isnil(result1) ==> result0 != nil || handlerCalls != old(handlerCalls)
 // C08: a request, admitted or not, issues no modifying backend operation while the export is read-only
 //@ ensures [ro-no-backend-mutation] {C08} old(curPolicy(h.server.handler).ReadOnly) ==> mutlog == old(mutlog)
